@@ -115,7 +115,8 @@ def h_cable(cfg):
     saved = wm.random
     wm.random = st
     try:
-        cable = Cable(env, st.delay_dist)
+        p = sym_real('p', 0, 1) if cfg.get('loss') else None
+        cable = Cable(env, st.delay_dist, loss_rate=p) if cfg.get('loss') else Cable(env, st.delay_dist)
         a, b = Rec(env, 'A'), Rec(env, 'B')
         cable.set_endpoints(a, b)
         ent = {'A': [], 'B': []}
@@ -136,13 +137,18 @@ def h_cable(cfg):
             return
     finally:
         wm.random = saved
-    check('c10.cable-A-to-B-only', all(p.src == 'A' for p, _ in b.log) and len(b.log) == n)
-    check('c10.cable-B-to-A-only', all(p.src == 'B' for p, _ in a.log) and len(a.log) == n)
+    lossy = bool(cfg.get('loss'))
+    check('c10.cable-A-to-B-only', all(q.src == 'A' for q, _ in b.log) and (lossy or len(b.log) == n))
+    check('c10.cable-B-to-A-only', all(q.src == 'B' for q, _ in a.log) and (lossy or len(a.log) == n))
     w_ab = a.out
     w_ba = b.out
     check('c10.cable-two-wires', w_ab is not w_ba)
-    wire_law('c10.ab', w_ab.action, ent['A'], b.log, st, None, False)
-    wire_law('c10.ba', w_ba.action, ent['B'], a.log, st, None, False)
+    for tag, w, ents, log in (('c10.ab', w_ab, ent['A'], b.log), ('c10.ba', w_ba, ent['B'], a.log)):
+        has_loss = lossy and any(pr is w.action for _, pr in st.losses)
+        if lossy and not has_loss:
+            # this direction never drew: only legal when the loss rate is 0
+            check('c10.loss-rate-ignored-only-if-zero', eq(p, 0), tag)
+        wire_law(tag, w.action, ents, log, st, p, has_loss)
     cover('nontrivial')
 
 
@@ -159,6 +165,7 @@ def jobs(tier, seed):
     js.append({'harness': 'wire', 'cfg': {'n': n + 1, 'sorts': 'int', 'loss': 'none'}, 'weight': 20})
     for sort in ('int', 'real') if tier != 'quick' else ('int',):
         js.append({'harness': 'cable', 'cfg': {'n': 2, 'sorts': sort}, 'weight': 30})
+    js.append({'harness': 'cable', 'cfg': {'n': 1 if tier == 'quick' else 2, 'sorts': 'int', 'loss': True}, 'weight': 30})
     return js
 
 
